@@ -36,7 +36,12 @@ PROPS = {
     "C12": dict(functions=["pre_irrigation", "drainage", "infiltration", "capillary_rise", "groundwater_inflow", "root_zone_water", "soil_evaporation", "evap_layer_water_content", "rainfall_partition", "irrigation", "check_groundwater_table", "transpiration", "harvest_index", "canopy_cover", "germination", "growth_stage", "solution_single_time_step"], level="proof", frame=True,
                 explanation="assigns (frame) obligations: every store of a process function hits a fresh array or a location its contract's assigns clause names; "
                             "parameter arrays (soil profile, weather, management) are not writable"),
-    "C07": dict(functions=["germination", "HIref_current_day", "solution_single_time_step"], level="other", bounded=dict(module="c07_schedule.py"),
+    "C09": dict(functions=["AquaCropModel.run_model", "check_model_is_finished", "update_time"], level="proof", bounded=dict(module="c09_stepwise.py"),
+                explanation="run_model's two loops verified over an ABSTRACT step contract (ghost step counter, trajectory predicate fin): every call advances the "
+                            "trajectory by min(k, steps-to-termination) and reports finished exactly at termination, so every partition of a run ends in the same "
+                            "state T^N(s0); bitwise equality of tables across partitions is additionally monitored by the BOUNDED stand-in",
+                trusted_base=["AquaCropModel._perform_timestep: abstract deterministic step (assumed; frame/determinism shared with C10)"]),
+    "C07": dict(functions=["germination", "HIref_current_day", "solution_single_time_step", "check_model_is_finished", "update_time"], level="other", bounded=dict(module="c07_schedule.py"),
                 explanation="BOUNDED: schedule produced by the pandas initialisers and whole-run calendar facts checked on an enumerated lattice of windows / planting dates / crops"),
     "C16": dict(functions=[], level="other", bounded=dict(module="c16_completion.py"),
                 explanation="BOUNDED: pairwise-covering enumeration of the configuration catalogue"),
